@@ -108,7 +108,10 @@ impl NetcodeClient {
             ClientAuthentication::Secure { connect_token } => connect_token,
         };
 
-        let server_addr = connect_token.server_addresses[0].expect("cannot create or deserialize a ConnectToken without a server address");
+        let Some(server_addr) = connect_token.server_addresses[0] else {
+            // A connect token read from bytes can have no server address in its first slot
+            return Err(NetcodeError::NoMoreServers);
+        };
 
         Ok(Self {
             sequence: 0,
